@@ -457,14 +457,20 @@ class JokerPrior:
             for par in sub_pars.values():
                 try:
                     value = par.type()
-                    replace = {k: v for k, v in sampled.items() if k is not par}
-                    replace[value] = sampled[par]
-                    _logp = vectorize_graph(pm.logp(par, value), replace=replace).eval()
+                    logp_graph = pm.logp(par, value)
                 except Exception:
+                    # no log-density can be derived for this variable (e.g. a
+                    # Deterministic or a constant)
                     logger.warning(
                         f"Cannot auto-compute log-prior value for parameter {par}"
                     )
                     continue
+
+                # (outside the try: a failure to EVALUATE a density that exists
+                # must not be logged away as if the term were not there)
+                replace = {k: v for k, v in sampled.items() if k is not par}
+                replace[value] = sampled[par]
+                _logp = vectorize_graph(logp_graph, replace=replace).eval()
 
                 logp.append(_logp)
             log_prior = np.sum(logp, axis=0)
